@@ -321,12 +321,34 @@ def run(run, tier):
                        "data-dependent (or frozen) scale, so every case is non-trivial.")
   lines, impl = [], []
   for c in cases:
-    y, sc, qs = impl_call(Q, K, tf, c)
-    impl.append((A.fr(c["x"]), A.fr(y), [F(float(v)) for v in sc], None if qs is None else [F(float(v)) for v in qs]))
     lines.append(line_of(c, eps32))
+    try:
+      y, sc, qs = impl_call(Q, K, tf, c)
+    except Exception as e:  # pylint: disable=broad-except
+      # a valid configuration must produce an output: an exception of the real code fails the property here
+      run.case(key=("raises", len(run.nontrivial)), nontrivial=True)
+      run.count("impl-raises")
+      run.violate("returns_output", dict(quantizer=c["q"], alpha="auto_po2" if c["po2"] else "auto",
+                                         error=type(e).__name__),
+                  {"case": label(c), "error": str(e)[:300]}, mirrored=False)
+      impl.append(None)
+      continue
+    if not (np.isfinite(y).all() and np.isfinite(sc).all() and (qs is None or np.isfinite(qs).all())):
+      # clause "finite inputs give finite outputs" (and a finite exposed scale), judged before anything else
+      run.case(key=("nonfinite", len(run.nontrivial)), nontrivial=True)
+      run.count("impl-nonfinite")
+      run.violate("finite", dict(quantizer=c["q"], alpha="auto_po2" if c["po2"] else "auto"),
+                  {"case": label(c), "y": [float(v) for v in np.asarray(y).ravel()[:8]],
+                   "scale": [float(v) for v in np.asarray(sc).ravel()[:8]]}, mirrored=False)
+      impl.append(None)
+      continue
+    impl.append((A.fr(c["x"]), A.fr(y), [F(float(v)) for v in sc], None if qs is None else [F(float(v)) for v in qs]))
   outs = core.run_driver("C05", lines)
   res = {}
-  for c, (x, y, sc, qs), o in zip(cases, impl, outs):
+  for c, im, o in zip(cases, impl, outs):
+    if im is None:
+      continue
+    x, y, sc, qs = im
     run.case(key=(c["q"], c["stream"], tuple(c["shape"]), c["bits"], c["integer"], c["po2"], str(c.get("sa")),
                   str(c.get("eps")), len(run.nontrivial)), nontrivial=True,
              sample={"case": label(c), "x": [float(v) for v in x[:6]], "impl_y": [float(v) for v in y[:6]],
